@@ -19,6 +19,9 @@ Round 8: the wait-for graph may be split over sibling helpers (followed through 
 walk of the loop check must not be skippable; dependency dates enter max/min None-filtered or demanded by the isolation check;
 user IResource objects are never hashed; division guards inside conditional expressions and `free > c` (c >= 0); calendar
 divisions spelled operator.truediv and nested operator procedures; hoisted `x is None` flags in the definite-assignment analysis.
+Round 9: `while remaining > eps` needs a shortcut that takes everything up to eps; library lambdas wrapped around a calendar
+(apply / FuncCalendar) must not compute on a None answer; an unreadable booking guard is UNDECIDED, a recognised wrong one
+(`free >= 0`) REFUTED; recursion_stays_in_wbs: REFUTED only for a truly unguarded call or a positively widened guard.
 Not decided: stack depth on legitimately deep acyclic inputs; exceptions raised inside user supplied IResource /
 calendar callables; clone()'s dictionary lookups (assumption table: keys are drawn from the collection that built the map).
 """
@@ -800,6 +803,32 @@ def _nonzero_by(t, pol, D):
 def calendar_divisions(ctx, o, reach):
     """divisions inside the library's calendar classes that calc reaches through Resource.get_available_units"""
     prog = ctx.prog
+    # functions the library itself wraps around a calendar (`self.apply(lambda units: ..)` / `FuncCalendar(cal, lambda ..)`): FuncCalendar
+    # hands them the raw answer of the wrapped calendar, None for a date it does not cover - arithmetic on it is a TypeError
+    for f in [g for g in prog.all_funcs() if g.module.name == 'calendar' and not isinstance(g.node, ast.Lambda)]:
+        for n in walk_no_nested(f.node):
+            lam = None
+            if isinstance(n, ast.Call) and isinstance(n.func, ast.Attribute) and n.func.attr == 'apply' and len(n.args) == 1 and \
+                    isinstance(n.args[0], ast.Lambda):
+                lam = n.args[0]
+            elif isinstance(n, ast.Call) and isinstance(n.func, ast.Name) and n.func.id == 'FuncCalendar' and len(n.args) == 2 and \
+                    isinstance(n.args[1], ast.Lambda):
+                lam = n.args[1]
+            if lam is None or len(lam.args.args) != 1:
+                continue
+            p_ = lam.args.args[0].arg
+            for x in ast.walk(lam.body):
+                if isinstance(x, (ast.BinOp, ast.Compare)) and any(isinstance(y, ast.Name) and y.id == p_ for y in
+                                                                  ([x.left, x.right] if isinstance(x, ast.BinOp) else [x.left] + x.comparators)):
+                    if isinstance(x, ast.Compare) and all(isinstance(op_, (ast.Is, ast.IsNot)) for op_ in x.ops):
+                        continue
+                    ec = eval_conditions(lam.body, x) or []
+                    if any(facts.cond_is(t_, q_, f"{p_} is None", want=False) or facts.cond_is(t_, q_, p_, want=True) for t_, q_ in ec):
+                        continue
+                    o.refute(f, n, x, f"`{src(n)[:70]}`: the library wraps the calendar in a function that computes `{src(x)[:40]}` on the wrapped "
+                                      f"calendar's answer; FuncCalendar passes None for a date the calendar does not cover: TypeError leaves "
+                                      f"get_available_units and calc")
+                    break
     fs = [f for f in reach if f.module.name == 'calendar' and not isinstance(f.node, ast.Lambda)]
     if not any(f.name == 'get_available_units' for f in fs):
         o.undecided(prog.func(BOTH[0]['calc']), None, 'calendar', "no calendar get_available_units in the reach of calc: interface dispatch not resolved")
@@ -927,7 +956,19 @@ def _loop_exit_divisor(ctx, f, node, D, S):
     if any(x is node for st in loop.body for x in ast.walk(st)):
         return "division inside the loop without a dominating free > 0"
     left_p = f.params[5]
+    ex0 = Expander(prog, f, ctx.typer)
     st = sched.sign_test(loop.test)
+    guard_eps = 0
+    if st is None:
+        # `while remaining > eps` with a constant tolerance eps > 0 (possibly a folded module constant)
+        lt = ex0.expand(loop.test, cfg.node_of(loop)) if cfg.node_of(loop) is not None else loop.test
+        st = _above_nonneg_const(lt, True)
+        if st is not None:
+            cmp_ = lt
+            while isinstance(cmp_, ast.UnaryOp):
+                cmp_ = cmp_.operand
+            vals = [facts.const_num(cmp_.left), facts.const_num(cmp_.comparators[0])]
+            guard_eps = next((v for v in vals if v is not None), 0)
     gvar = st[0].id if st and st[1] == '>' and isinstance(st[0], ast.Name) else None
     if gvar is not None and gvar != left_p:
         # a local copy of the parameter made before the loop (`remaining = left_hours`, e.g. left behind by helper inlining)
@@ -1026,8 +1067,33 @@ def _loop_exit_divisor(ctx, f, node, D, S):
         if isinstance(n, ast.If) and (match(f"{left_p} == 0", n.test) or match(f"{left_p} <= 0", n.test)) and \
                 any(isinstance(x, ast.Return) for x in n.body) and cfg.dominates(cfg.node_of(n), cfg.node_of(loop)):
             zero = 'le' if match(f"{left_p} <= 0", n.test) else 'eq'
+        elif isinstance(n, ast.If) and any(isinstance(x, ast.Return) for x in n.body) and cfg.node_of(n) is not None and \
+                cfg.dominates(cfg.node_of(n), cfg.node_of(loop)):
+            tx_ = ex0.expand(n.test, cfg.node_of(n))
+            m_ = match(f"{left_p} <= $c", tx_) or match(f"{left_p} < $c", tx_)
+            if m_ and facts.const_num(m_['c']) is not None and facts.const_num(m_['c']) >= 0 and not (match(f"{left_p} < $c", tx_) and facts.const_num(m_['c']) == 0):
+                zero = 'le'          # `if remaining <= eps: return`
+            else:
+                g_ = _above_nonneg_const(tx_, False)
+                if g_ is not None and isinstance(g_[0], ast.Name) and g_[0].id == left_p:
+                    zero = 'le'      # `if not remaining > eps: return`
     if not zero:
         return "no `remaining == 0` shortcut before the loop: with zero work the loop is skipped and the divisor is arbitrary"
+    if guard_eps > 0:
+        # the loop only runs for remaining > eps: the shortcut must take everything up to eps, not just 0
+        covered = False
+        for n in walk_no_nested(f.node):
+            if isinstance(n, ast.If) and any(isinstance(x, ast.Return) for x in n.body) and cfg.dominates(cfg.node_of(n), cfg.node_of(loop)):
+                tx = ex0.expand(n.test, cfg.node_of(n))
+                m_ = match(f"{left_p} <= $c", tx) or match(f"{left_p} < $c", tx)
+                if m_ and facts.const_num(m_['c']) is not None and facts.const_num(m_['c']) >= guard_eps:
+                    covered = True
+                g_ = _above_nonneg_const(tx, False)
+                if g_ is not None and isinstance(g_[0], ast.Name) and g_[0].id == left_p:
+                    covered = covered or same(tx, ex0.expand(loop.test, cfg.node_of(loop)))
+        if not covered:
+            return (f"the loop runs only while `{src(loop.test)}` (tolerance {guard_eps:g}) but the shortcut in front of it returns only for "
+                    f"remaining == 0: a remaining work in (0, {guard_eps:g}] skips the loop and the division uses an arbitrary (possibly zero) capacity")
     if zero == 'eq':
         pf = prog.func(S['pass_'])
         exp = Expander(prog, pf, ctx.typer)
